@@ -21,7 +21,9 @@ RULE = ('Hypothesis draws a resource (1-3 lexicons, LMF 1.0-1.3, extensions buil
         'unrestricted default mode. Equality of canonical observations (order-sensitive for forms, '
         'senses of an entry, members; multisets where no order is promised). A second family builds '
         'documents with exactly 999/1000/1001/2000/2001 synsets / entries / sense relations '
-        '(BATCH_SIZE boundaries). Non-trivial: >=1 entry and >=1 synset and one of metadata, tag, '
+        '(BATCH_SIZE boundaries); a third adds universes of lexicons that reuse each other\'s '
+        'identifiers (two versions, unrelated lexicon with the same ids, extension chains), one '
+        'file per lexicon. Non-trivial: >=1 entry and >=1 synset and one of metadata, tag, '
         'pronunciation, count, frame, example, definition, proposed ILI, special character, '
         'extension; distinct by fingerprint of the model.')
 ASSUMPTIONS = [
@@ -61,12 +63,16 @@ def _classify(case):
     return nt, tags
 
 
-def _check_db(model_res: dict, out: list, label: str = '') -> None:
+def _check_db(model_res, out: list, label: str = '') -> None:
     """Compare the current database with the reference built from *model_res*
-    (added as many times as the real add was called)."""
+    (one resource added twice, or a list of resources each added once)."""
     ref = RefDB()
-    ref.add_resource(model_res)
-    ref.add_resource(model_res)
+    if isinstance(model_res, list):
+        for r in model_res:
+            ref.add_resource(r)
+    else:
+        ref.add_resource(model_res)
+        ref.add_resource(model_res)
     installed = dumps.installed(env_db().file)
     if sorted(installed) != sorted(ref.installed()):
         out.append(Disc('installed-set', label, sorted(ref.installed()), sorted(installed)))
@@ -135,6 +141,47 @@ def oracle(case):
     out: list[Disc] = []
     _check_db(res, out)
     return out
+
+
+# ---------------------------------------------------------------------------
+# lexicons that reuse each other's identifiers (two versions of one lexicon, an unrelated
+# lexicon with the same ids, extensions): every INSERT must resolve ids within the right lexicon
+
+@st.composite
+def _shared_cases(draw):
+    u = draw(gen.universes(special=draw(st.booleans())))
+    return {'universe': u, 'style': draw(xmlw.styles())}
+
+
+def shared_oracle(case):
+    global _current_db
+    import wn
+    u = case['universe']
+    d = env.new_dir('c01s')
+    _current_db = env.fresh_db()
+    resources = []
+    for i, doc in enumerate(u['lexicons']):
+        res = {'lmf_version': u['lmf_version'], 'lexicons': [doc]}
+        resources.append(res)
+        wn.add(xmlw.write(res, d / f'l{i}.xml', case['style'] if i % 2 == 0 else None),
+               progress_handler=None)
+    out: list[Disc] = []
+    _check_db(resources, out)
+    return out
+
+
+def _shared_classify(case):
+    docs = case['universe']['lexicons']
+    tags = gen.resource_tags({'lmf_version': case['universe']['lmf_version'], 'lexicons': docs})
+    ids = {}
+    for dd in docs:
+        for e in dd.get('entries', []):
+            if not e.get('external'):
+                ids.setdefault(e['id'], set()).add(gen.spec_of(dd))
+    shared = any(len(v) > 1 for v in ids.values())
+    if shared:
+        tags.append('ids-shared-between-lexicons')
+    return shared and 'entry' in tags and 'synset' in tags, tags
 
 
 # ---------------------------------------------------------------------------
@@ -240,6 +287,12 @@ SUBS = [
         budget={'quick': 40, 'thorough': 300}, sample=_sample,
         fingerprint=lambda c: fingerprint(c['resource']),
         require_tags=('extension', 'external-entry', 'external-synset')),
+    Sub('content-shared-ids', shared_oracle, _shared_classify,
+        strategy=lambda tier: _shared_cases(),
+        budget={'quick': 40, 'thorough': 300},
+        sample=lambda c: {'lexicons': [gen.spec_of(x) for x in c['universe']['lexicons']]},
+        fingerprint=lambda c: fingerprint(c['universe']),
+        require_tags=('ids-shared-between-lexicons',)),
     Sub('batch-boundary', batch_oracle, _batch_classify, enumerate=_batch_enum,
         exhaustive_note='documents with exactly 999..2001 elements of one kind '
                         '(synsets / entries / sense relations)',
